@@ -75,6 +75,11 @@ def h_parse(ctx):
     sp.models['method:Obj:rematch.groups'] = Func(lambda I_, a, k, nd: tuple(UF('re.group[%s]' % a[0].pat, ObjS, IntS, StrS)(a[0].expr, z3.IntVal(i + 1)) for i in range(a[0].ngroups)))
 
     def m_parse_expr(I_, a, k, nd):
+        if isinstance(a[0], Untracked):
+            # the text of a {expression} tag (tags are not tracked by this contract): it parses or it does not
+            if I_.ctx.choose(2, 'tag_expression.invalid'):
+                raise PyRaise('ExpressionError', (), 'parse_expression')
+            return Obj(I_.fresh('tree', ObjS), 'tree')
         if I_.ctx.branch(UF('parse_expression.raises', StrS, BoolS)(to_z3(a[0], StrS)), 'expression.invalid'):
             raise PyRaise('ExpressionError', (), 'parse_expression')
         return Obj(I_.fresh('tree', ObjS), 'tree')
